@@ -23,6 +23,15 @@ CLAIMED = {
  "C01": ("effect-completeness path analysis over go/ssa (AT-RETURN / ITER must-effects per cache x async x file-exists valuation), error-discipline scan, who-may-write check",
          "Decides structural necessary conditions of the CRUD refinement for all paths and all cache/async valuations: every successful write performed index insertion + cache/pending put or file write + commit; every delete (single, bulk, search) un-indexes, drops cache and pending entries, removes the file and commits; the read path caches only what it read; no storage/codec/package error is dropped; the uuid<->id maps have one owner and are written in pairs; fresh UUIDs are assigned only to objects without one. Field VALUES, JSON round trips and run-time enumeration completeness are not decided.",
          "Trusts go/ssa, the effect tables and call-level effects standing for presence-guarded primitives; schema-table stability within one locked call.", "DESIGN.md 4 C01"),
+ "C04": ("commit-before-return path analysis (dirty bit) over all mutating entries; Close completeness (ITER); codec key-table sibling agreement; rehydration must-assign analysis; float64-detour dataflow scan",
+         "Decides necessary conditions of restart-transparency: no synchronous mutator can return successfully with uncommitted index/settings changes; Close cancels, flushes and commits every schema without early exit; each custom codec writes exactly the keys it reads and the index tuple order agrees both ways; every non-serialised field is rebuilt before a loaded schema is published; no integer key or id passes through float64 on reload. Equality of full observation sets before/after reopen is not decided.",
+         "Trusts go/ssa, encoding/json's documented key derivation (re-implemented for struct tags), and the effect tables.", "DESIGN.md 4 C04"),
+ "C07": ("effect-order and per-iteration path analysis of the batch entry, loop-structure check on the variadic parameter, count dataflow, bulk plumbing def-use",
+         "Decides the structure behind all-or-nothing batches: in InsertOrUpdateMany no reject source is reachable after a mutation, every iteration of the validating loop runs type check, Transform, case transforms, Validate, scratch-index insertion and live uniqueness check for its element, both loops cover the whole unsliced parameter, the count is 0 on every path without insertion and incremented once per accepted object; InsertOrUpdateBulk adds every batch count to the total, applies no batch after a failed one, and consumes the channel by one receive appended in order; scratch indexes never alias or replace live index memory.",
+         "Trusts go/ssa, the effect tables and the vetted batch-protocol exemptions whose premises are checked (ITER).", "DESIGN.md 4 C07"),
+ "C10": ("finite evaluation of the caching predicates; effect/lock path analysis of write, read, schema-acquisition, flusher, flush and delete entries under the async valuations",
+         "Decides the structural half of async writes: async implies cached (truth table); accepted writes are in cache and pending store before return; lookups consult the cache before the file; the flusher starter is called on both schema-acquisition branches; the background flush runs under the write lock after re-checking the context; FlushAll/FlushAllAndCommit/Close always call flush (and commit); every iteration of the map flush writes and drops; a delete drops the pending entry. Timing (threshold/timeout firing in time) is not decided.",
+         "Trusts go/ssa and the effect tables; per-type pending maps are assumed present for the 'what is pending gets flushed' rules.", "DESIGN.md 4 C10"),
 }
 
 NOT_BUILT = "check not built yet in this round (planned, see DESIGN.md section 4)"
